@@ -150,6 +150,7 @@ def run(ch, ctx):
         raise
     ctx.count('dealing_phases', mon.m.phases)
     ctx.count('stud_fallback_fired', mon.m.fallbacks)
+    ctx.count('hands_with_two_streets_fallen_back', mon.m.fallbacks >= 2)
     ctx.count('runouts_gt1', mon.m.runouts > 1 and mon.m.returns_left is not None)
     ctx.count('draw_rounds', opseq(world.state).count('x') > 0)
     ctx.count('custom_variant', 'custom' in cfg)
